@@ -208,6 +208,7 @@ func (in *inst) static(n *vnode, st *State, f *ssa.Function, args []Val, binding
 	}
 	for i, a := range args {
 		st.ghost[fmt.Sprintf("arg:%s.%d", f.Name(), i)] = a
+		delete(st.ghost, fmt.Sprintf("has:arg:%s.%d", f.Name(), i))
 	}
 	inModule := f.Blocks != nil && ((f.Pkg != nil && strings.HasPrefix(f.Pkg.Pkg.Path(), modPath)) || f.Parent() != nil || f.Synthetic != "")
 	if ct := fv.eng.contracts[f]; ct != nil && !ct.Synth {
@@ -367,6 +368,7 @@ func (in *inst) invoke(n *vnode, st *State, recv Val, it types.Type, m *types.Fu
 	}
 	for i, r := range rs {
 		st.ghost[fmt.Sprintf("%s.%d", m.Name(), i)] = r
+		delete(st.ghost, fmt.Sprintf("has:%s.%d", m.Name(), i))
 	}
 	return resultVal(sig, rs)
 }
